@@ -23,10 +23,27 @@ RULE = (
     "objects - sizes on and around multiples of fs.LIST_OBJECT_PAGE_SIZE=1000 - of which 0..3 are used; dry "
     "and real, both store classes; 32-hex md5 names and short 5-hex names) and a medium stream (20..999). "
     "Next to some directory objects (used, unused, absent) a legacy <oid>.dir.unpacked directory with files is "
-    "planted. corpus/C06/*.json runs first. A case is non-trivial when gc removed at least one object and kept at "
+    "planted. An AUDIT block (tools/COVERAGE_AUDIT.md) of ~110 fixed cases runs in every run of both tiers: every "
+    "flag and pair (shallow x dry x class x jobs, declared defaults, positional call, read_only x dry x cache_odb), "
+    "cache_odb omitted / the odb object itself / second store / read-only, the same value under two algorithm "
+    "names in both orders, duplicate ids, obj_name labels, the EMPTY listing's oid (used / unused / absent / only "
+    "in the cache), an unused directory whose files all belong to a used one, garbage of only directory objects / "
+    "only files / none / everything / empty store, a used .dir missing or corrupt in odb but present in cache_odb "
+    "(and the reverse, and unknown everywhere), unusual names inside listings (backslash, space, leading dot, "
+    "non-ASCII, NFD next to NFC, a name ending in .dir, prefix siblings, 1 and 200 characters, case twins), depth "
+    ">= 3, identical content twice in one directory, a root-key entry, crafted oids ending in every hex digit, a "
+    "directory oid ...dd.dir next to a file named like it without .dir, unprotected objects, stores built through "
+    "add_bytes/add_update_tree, and an injected EIO of fs.remove on the first / last call (oracle only); "
+    "ctx.extra['input_dimensions'] tallies what each run reached. corpus/C06/*.json runs first. A case is non-trivial when gc removed at least one object and kept at "
     "least one, or raised."
 )
 ASSUMPTIONS = [
+    "fault cases (an injected EIO from odb.fs.remove on object paths) are judged by the safety half of the oracle "
+    "only (the error surfaces, no used object is gone, nothing altered or created, a dry run never removes); the "
+    "model has no I/O faults and these cases are not part of the correspondence",
+    "a hand-made listing that names one relpath twice with different files is outside the input space (a Tree is "
+    "keyed by relpath): Tree.load keeps the last entry, so gc protects only that file - recorded as an unjudged "
+    "probe in the evidence (coverage.probes)",
     "the model gc is assembled from decisions generated from the AST of gc.py (translator unit gc, fail-closed on "
     "the statement sequence): guard, algorithm filter, expansion test + source, scan test + source, .dir partition, "
     "count/removal guards, defaults; the loop STRUCTURE around them is hand-written and pinned by the shape check. "
@@ -149,8 +166,40 @@ def _few(lst, k=6):
     return f"{lst[:k]}" + (f" (+{len(lst) - k} more)" if len(lst) > k else "")
 
 
+def resolve_universe(case, fo, dirs, F):
+    """the file / directory universe of one case: the fixed F[0..3], D1..D3 plus the case's own
+    `xfiles` {name: {"data": text, "oid": crafted name (optional)}} and
+    `xdirs` {name: {"entries": [[relpath, file ref]], "oid": crafted name (optional)}}.
+    A file ref is an index into F, the name of an xfile, or a literal oid.
+    -> (foid: ref -> oid, fdata: ref -> bytes, cdirs: name -> [(relpath, oid)], doid: name -> oid)"""
+    foid = {i: fo[i] for i in range(len(fo))}
+    fdata = {i: F[i] for i in range(len(F))}
+    for name, spec in case.get("xfiles", {}).items():
+        data = spec.get("data", "").encode("utf-8")
+        fdata[name] = data
+        foid[name] = spec.get("oid") or impl.md5hex(data)
+    cdirs = {dn: list(lst) for dn, lst in dirs.items()}
+    crafted = {}
+    for dn, spec in case.get("xdirs", {}).items():
+        cdirs[dn] = [(rp, foid.get(ref, ref)) for rp, ref in spec["entries"]]
+        if spec.get("oid"):
+            crafted[dn] = spec["oid"]
+    doid = {dn: crafted.get(dn) or impl.dir_oid(lst) for dn, lst in cdirs.items()}
+    # "raw:<dir>" = the directory's oid without the .dir suffix (a FILE object of that name)
+    for name, spec in case.get("xfiles", {}).items():
+        if str(spec.get("oid", "")).startswith("raw:"):
+            foid[name] = doid[spec["oid"][4:]][:-4]
+    return foid, fdata, cdirs, doid
+
+
+class InjectedFault(OSError):
+    pass
+
+
 def run_case(ctx, case, fo, dirs, F):
-    """returns (input_term, impl_val, oracle problems)"""
+    """returns (input_term, impl_val, oracle problems, nontrivial, res)"""
+    import errno
+
     from dvc_objects.errors import ObjectDBPermissionError, ObjectFormatError
 
     from dvc_data.hashfile.gc import gc
@@ -161,27 +210,44 @@ def run_case(ctx, case, fo, dirs, F):
     cache = os.path.join(root, "cache") if case.get("sep_cache") else store
     cls = case.get("cls", "local")
     alg = case.get("alg", "md5")  # algorithm of the COLLECTED store
-    # cache_odb: omitted | a second store (sep_cache) | a second odb object over the store's own
-    # directory (cache_at_store); of the same or of ANOTHER algorithm / class than the store
+    # cache_odb: omitted | the very same object as odb (cache_is_odb) | a second store (sep_cache) | a second
+    # odb object over the store's own directory (cache_at_store); same or ANOTHER algorithm / class
     explicit_cache = bool(case.get("sep_cache") or case.get("cache_at_store"))
     cache_alg = case.get("cache_alg", alg)
     cache_cls = case.get("cache_cls", cls)
-    for fi in case["files"]:
-        impl.plant(store, fo[fi], F[fi])
-    doid = {}
-    for dn, lst in dirs.items():
-        doid[dn] = impl.dir_oid(lst)
-    for dn in case["dirs"]:
-        impl.plant(store, doid[dn], impl.canon_listing(dirs[dn]))
+    foid, fdata, cdirs, doid = resolve_universe(case, fo, dirs, F)
+    fmode = 0o644 if case.get("modes") == "unprotected" else 0o444
+    store_state = case.get("store_state", {})  # dir name -> "corrupt": the STORE's copy is unreadable
+    if case.get("route") == "api":
+        # the same store built through the public API instead of planted files
+        from dvc_data.hashfile.db import add_update_tree
+        from dvc_data.hashfile.tree import Tree
+
+        w = impl.make_odb(cls, store, hash_name=alg)
+        for fi in case["files"]:
+            w.add_bytes(foid[fi], fdata[fi])
+        for dn in case["dirs"]:
+            t = Tree()
+            for rp, h in cdirs[dn]:
+                t.add(tuple(rp.split("/")), None, HashInfo("md5", h))
+            t.digest()
+            assert t.hash_info.value == doid[dn], (t.hash_info.value, doid[dn])
+            add_update_tree(w, t)
+    else:
+        for fi in case["files"]:
+            impl.plant(store, foid[fi], fdata[fi], mode=fmode)
+        for dn in case["dirs"]:
+            body = b"{not json" if store_state.get(dn) == "corrupt" else impl.canon_listing(cdirs[dn])
+            impl.plant(store, doid[dn], body, mode=fmode)
     bulk = bulk_oids(case.get("bulk"))
     plant_bulk(store, bulk.values())
-    names = {**doid, **bulk}  # symbolic name in the case -> oid
+    names = {**{k: v for k, v in foid.items() if isinstance(k, str)}, **doid, **bulk}  # symbolic name -> oid
     if case.get("stray"):
         impl.plant(store, "zz" + "tmpstray", b"partial", mode=0o644)
         with open(os.path.join(store, "rootfile"), "wb") as f:
             f.write(b"not an object")
     trees = {}  # what cache_odb can load: dn -> ok | corrupt | notalist | missing
-    for dn in dirs:
+    for dn in cdirs:
         forced = case.get("cache_state", {}).get(dn)
         if cache != store:
             st = forced or "ok"
@@ -189,9 +255,11 @@ def run_case(ctx, case, fo, dirs, F):
             st = forced or ("ok" if dn in case["dirs"] else "missing")
             if st == "missing" and dn in case["dirs"]:
                 st = "ok"
+            if dn in case["dirs"] and store_state.get(dn) == "corrupt" and not forced:
+                st = "corrupt"  # the store IS the cache
         if st == "ok" and cache != store:
-            impl.plant(cache, doid[dn], impl.canon_listing(dirs[dn]))
-        elif st == "corrupt":
+            impl.plant(cache, doid[dn], impl.canon_listing(cdirs[dn]))
+        elif st == "corrupt" and not (cache == store and store_state.get(dn) == "corrupt"):
             impl.plant(cache, doid[dn], b"{not json")
         elif st == "notalist":
             impl.plant(cache, doid[dn], b'{"a": 1}')
@@ -209,16 +277,58 @@ def run_case(ctx, case, fo, dirs, F):
     # when cache == store, planting into the cache changed the store: re-observe
     before = impl.walk_store(store)
     odb = impl.make_odb(cls, store, read_only=case.get("ro", False), hash_name=alg)
-    cache_odb = impl.make_odb(cache_cls, cache, hash_name=cache_alg) if explicit_cache else None
-    case_used = [(n, v) for n, v in case["used"]]
+    if case.get("cache_is_odb"):
+        cache_odb = odb
+    elif explicit_cache:
+        cache_odb = impl.make_odb(cache_cls, cache, hash_name=cache_alg, read_only=case.get("cache_ro", False))
+    else:
+        cache_odb = None
+    case_used = [tuple(u) for u in case["used"]]  # (alg, ref) or (alg, ref, obj_name)
     case_used += [("md5", f"B{i}") for i in case.get("bulk", {}).get("used", [])]
     kind = case.get("used_kind", "list")
-    used, order = as_container(kind, [HashInfo(n, names.get(v, v)) for n, v in case_used])
+    his = [HashInfo(u[0], names.get(u[1], u[1]), *( [u[2]] if len(u) > 2 else [])) for u in case_used]
+    used, order = as_container(kind, his)
+    fault = case.get("fault")  # {"remove_call": k}: the k-th odb.fs.remove call on OBJECT paths raises EIO
+    calls = {"n": 0}
+    if fault:
+        real_remove = odb.fs.remove
+
+        def failing_remove(paths, *a, **kw):
+            if isinstance(paths, str) and paths.endswith(".unpacked"):
+                return real_remove(paths, *a, **kw)  # odb._remove_unpacked_dir: the legacy side directory, not objects
+            calls["n"] += 1
+            if calls["n"] == fault["remove_call"]:
+                raise InjectedFault(errno.EIO, "injected I/O error")
+            return real_remove(paths, *a, **kw)
+
+        odb.fs.remove = failing_remove
     try:
-        n = gc(odb, used, cache_odb=cache_odb, shallow=case["shallow"], dry=case["dry"])
-        res = ("ok", n)
+        try:
+            how = case.get("call", "kw")
+            if how == "defaults":  # shallow=True, dry=False are the declared defaults
+                assert case["shallow"] and not case["dry"]
+                kw = {}
+                if cache_odb is not None:
+                    kw["cache_odb"] = cache_odb
+                if "jobs" in case:
+                    kw["jobs"] = case["jobs"]
+                n = gc(odb, used, **kw)
+            elif how == "positional":
+                n = gc(odb, used, case.get("jobs"), cache_odb, case["shallow"], case["dry"])
+            else:
+                n = gc(odb, used, jobs=case.get("jobs"), cache_odb=cache_odb, shallow=case["shallow"],
+                       dry=case["dry"])
+            res = ("ok", n)
+        finally:
+            if fault:
+                try:
+                    del odb.fs.remove  # instance attribute shadowing the method
+                except AttributeError:
+                    odb.fs.remove = real_remove
     except ObjectDBPermissionError:
         res = ("err", 1)
+    except InjectedFault:
+        res = ("fault", calls["n"])
     except FileNotFoundError:
         res = ("err", 2)
     except ObjectFormatError:
@@ -229,9 +339,9 @@ def run_case(ctx, case, fo, dirs, F):
 
     # ---- model input
     trees_term = []
-    for dn in dirs:
+    for dn in cdirs:
         if trees[dn] == "ok":
-            trees_term.append(cpair(cbytes(doid[dn]), copt([cbytes(h) for _, h in dirs[dn]], clist)))
+            trees_term.append(cpair(cbytes(doid[dn]), copt([cbytes(h) for _, h in cdirs[dn]], clist)))
         elif trees[dn] in ("corrupt", "notalist"):
             trees_term.append(cpair(cbytes(doid[dn]), "None"))
     hexnames = set(bulk.values()) if case.get("bulk", {}).get("shape", "md5") == "md5" else set()
@@ -242,11 +352,13 @@ def run_case(ctx, case, fo, dirs, F):
     def cset(oids):  # vset with the cheaper literals (sorted by code point, deduplicated)
         return vset(oids) if not hexnames else "VL [" + "; ".join(f"VB {coid(o)}" for o in sorted(set(oids))) + "]"
 
+    cache_alg_term = copt(cbytes(cache_alg) if explicit_cache and not case.get("cache_is_odb") else
+                          (cbytes(alg) if case.get("cache_is_odb") else None))
     inp = ("{| g_store := %s; g_alg := %s; g_ro := %s; g_used := %s; g_trees := %s; g_cache_alg := %s; "
            "g_shallow := %s; g_dry := %s |}"
            % (clist([coid(o) for o in sorted(before)]), cbytes(alg), cbool(case.get("ro", False)),
               clist([cpair(cbytes(h.name), cbytes(h.value)) for h in order]),
-              clist(trees_term), copt(cbytes(cache_alg) if explicit_cache else None),
+              clist(trees_term), cache_alg_term,
               cbool(case["shallow"]), cbool(case["dry"])))
     if res[0] == "ok":
         exp = vL([vN(1), vN(res[1]), cset(after.keys())])
@@ -259,17 +371,20 @@ def run_case(ctx, case, fo, dirs, F):
     problems = []
     used_set = set()
     load_fail = False
-    for n, v in case_used:
+    by_oid = {o: dn for dn, o in doid.items()}
+    for u in case_used:
+        n, v = u[0], u[1]
         if n != alg:
             continue
         v = names.get(v, v)
         used_set.add(v)
         if v.endswith(".dir") and not case["shallow"]:
-            dn = [k for k, o in doid.items() if o == v][0]
-            if trees[dn] == "ok":
-                used_set.update(h for _, h in dirs[dn])
+            dn = by_oid.get(v)
+            if dn is not None and trees[dn] == "ok":
+                used_set.update(h for _, h in cdirs[dn])
             else:
-                load_fail = True
+                load_fail = True  # unknown to cache_odb, or unreadable there
+    unused = [o for o in before if o not in used_set]
     if case.get("ro"):
         if res != ("err", 1):
             problems.append(("C06:readonly-not-refused", f"read-only store: gc returned {res}"))
@@ -277,16 +392,30 @@ def run_case(ctx, case, fo, dirs, F):
             problems.append(("C06:readonly-modified", "read-only store was modified"))
     elif res[0] == "exc":
         problems.append((f"C06:unexpected-exception:{res[1]}", f"gc raised {res[1]}"))
+    elif res[0] == "fault":
+        # an injected I/O error of fs.remove propagates; whatever happened before it, no used object
+        # may be gone, nothing may be created or altered, and a dry run never calls remove at all
+        lost_used = [o for o in before if o in used_set and o not in after]
+        if lost_used:
+            problems.append(("C06:fault:removed-used", f"after a failed removal used object(s) are gone: {_few(lost_used)}"))
+        if case["dry"]:
+            problems.append(("C06:fault:dry-called-remove", "a dry run called fs.remove"))
+        if any(after[o] != before[o] for o in after if o in before) or set(after) - set(before):
+            problems.append(("C06:store-altered", "gc altered or created objects"))
     elif res[0] == "err":
         if not load_fail:
             problems.append(("C06:spurious-error", f"gc failed with {res} although every used directory loads"))
         if after != before:
             problems.append(("C06:error-but-modified", "gc raised but had already removed objects"))
     else:
+        if fault and not case["dry"] and unused and not load_fail:
+            expected_calls = len({o.endswith(".dir") for o in unused})
+            if fault["remove_call"] <= expected_calls:
+                problems.append(("C06:fault:swallowed", f"the injected fs.remove error (call {fault['remove_call']}) "
+                                                        f"did not surface: gc returned {res[1]}"))
         lost_used = [o for o in before if o in used_set and o not in after]
         if lost_used:
             problems.append(("C06:removed-used", f"used object(s) removed (used handed over as {kind}): {_few(lost_used)}"))
-        unused = [o for o in before if o not in used_set]
         if case["dry"]:
             if after != before:
                 gone = [o for o in before if o not in after]
@@ -301,8 +430,174 @@ def run_case(ctx, case, fo, dirs, F):
         if not load_fail and res[1] != len(unused):
             problems.append(("C06:count", f"returned {res[1]}, unused objects: {len(unused)}"))
     nontrivial = res[0] != "ok" or (0 < len(after) < len(before))
+    run_case.last_dims = dimensions(case, alg, case_used, names, his, before, unused, used_set, doid, cdirs, trees,
+                                    foid, res, explicit_cache, cache_alg)
     impl.rm_rf(root)
     return inp, exp, problems, nontrivial, res
+
+
+EMPTY_LISTING_OID = "d751713988987e9331980363e24189ce.dir"
+
+
+def dimensions(case, alg, case_used, names, his, before, unused, used_set, doid, cdirs, trees, foid, res,
+               explicit_cache, cache_alg):
+    """the input dimensions (tools/COVERAGE_AUDIT.md) this case had - computed from the case as run"""
+    import unicodedata
+
+    d = set()
+    sh, dry = case["shallow"], case["dry"]
+    d.add(f"flags: shallow={sh} x dry={dry}")
+    if case.get("ro"):
+        d.add("flags: read_only store" + (" x dry" if dry else " x real"))
+        if explicit_cache or case.get("cache_is_odb"):
+            d.add("flags: read_only store x cache_odb given")
+    if "jobs" in case:
+        d.add(f"flags: jobs={case['jobs']}")
+    d.add("call: " + case.get("call", "kw"))
+    if case.get("cache_is_odb"):
+        d.add("cache_odb: the same object as odb")
+    elif case.get("sep_cache"):
+        d.add("cache_odb: second store, " + ("other algorithm" if cache_alg != alg else "same algorithm"))
+    elif case.get("cache_at_store"):
+        d.add("cache_odb: second odb object over the store's directory, " + ("other algorithm" if cache_alg != alg else "same algorithm"))
+    else:
+        d.add("cache_odb: omitted")
+    if case.get("cache_ro"):
+        d.add("cache_odb: read-only (store writable)")
+    if case.get("cache_cls") and case["cache_cls"] != case.get("cls", "local"):
+        d.add("cache_odb: other class than the store")
+    vals = {}
+    for i, u in enumerate(case_used):
+        v = names.get(u[1], u[1])
+        vals.setdefault(v, []).append((i, u[0]))
+        if len(u) > 2:
+            d.add("identifiers: obj_name label on a " + ("directory id" if v.endswith(".dir") else "file id"))
+        if u[0] != alg:
+            d.add("used: id of another algorithm" + (" naming a store object" if v in before else ""))
+        elif v not in before:
+            d.add("used: id absent from the store")
+        if u[0] == alg and v.endswith(".dir"):
+            dn = {o: k for k, o in doid.items()}.get(v)
+            if not sh:
+                if dn is None:
+                    d.add("used .dir: unknown to odb and cache_odb (expanding)")
+                else:
+                    in_store = v in before
+                    st_store = "corrupt" if case.get("store_state", {}).get(dn) == "corrupt" else ("present" if in_store else "missing")
+                    if case.get("sep_cache"):
+                        d.add(f"used .dir: {st_store} in odb, {trees[dn]} in cache_odb (expanding)")
+                    elif trees[dn] != "ok":
+                        d.add(f"used .dir: {trees[dn]} in the store, no separate cache (expanding)")
+                    if trees[dn] == "ok":
+                        lst = cdirs[dn]
+                        if not lst:
+                            d.add("shapes: used EMPTY listing expanded")
+                        if any(h not in before for _, h in lst):
+                            d.add("shapes: used listing names a file absent from the store")
+            if v == EMPTY_LISTING_OID:
+                d.add("identifiers: the EMPTY listing's oid is used")
+    if not case_used:
+        d.add("used: empty")
+    for v, occ in vals.items():
+        algs = [a for _, a in occ]
+        if len(set(algs)) > 1 and alg in algs:
+            first_other = algs[0] != alg
+            d.add("used: same value under two algorithm names, " + ("other algorithm first" if first_other else "store's algorithm first"))
+        if len(algs) != len(set(algs)):
+            d.add("used: duplicate id")
+    if EMPTY_LISTING_OID in before:
+        d.add("identifiers: the EMPTY listing's oid is in the store" + ("" if EMPTY_LISTING_OID in used_set else " (unused)"))
+    for o in before:
+        if o.endswith(".dir") and o[:-4] in before:
+            d.add("identifiers: a file object named like a directory oid without .dir"
+                  + (" (exactly one of the two used)" if (o in used_set) != (o[:-4] in used_set) else ""))
+        if o.endswith("d.dir") or o.endswith("r.dir"):
+            d.add("identifiers: directory oid whose hex part ends in a letter of '.dir'")
+    if {o[-1] for o in before if not o.endswith(".dir")} >= set("0123456789abcdef"):
+        d.add("identifiers: file oids ending in each hex digit")
+    ud = [o for o in unused if o.endswith(".dir")]
+    uf = [o for o in unused if not o.endswith(".dir")]
+    if not before:
+        d.add("garbage: empty store")
+    elif not unused:
+        d.add("garbage: none (everything used)")
+    elif len(unused) == len(before):
+        d.add("garbage: everything")
+    if ud and not uf:
+        d.add("garbage: only directory objects")
+    if uf and not ud:
+        d.add("garbage: only files")
+    if ud and uf:
+        d.add("garbage: files and directory objects")
+    by_oid = {o: k for k, o in doid.items()}
+    used_dirs_files = set()
+    if not sh:
+        for v in used_set:
+            if v in by_oid and trees[by_oid[v]] == "ok":
+                used_dirs_files.update(h for _, h in cdirs[by_oid[v]])
+    for o in ud:
+        dn = by_oid.get(o)
+        if dn and cdirs[dn] and used_dirs_files and all(h in used_dirs_files for _, h in cdirs[dn]):
+            d.add("shapes: unused directory object whose files are all shared with a used directory")
+    for dn in case["dirs"]:
+        lst = cdirs[dn]
+        rps = [rp for rp, _ in lst]
+        hs = [h for _, h in lst]
+        if len(lst) == 1:
+            d.add("shapes: directory with one file")
+        if len(hs) != len(set(hs)):
+            d.add("shapes: two entries with identical content in one directory")
+        if any(rp.count("/") >= 3 for rp in rps):
+            d.add("shapes: nesting depth >= 3")
+        if "" in rps:
+            d.add("shapes: entry at the root key")
+        if impl.md5hex(b"") in hs:
+            d.add("shapes: zero-length file listed")
+        for rp in rps:
+            for part in rp.split("/"):
+                if "\\" in part:
+                    d.add("names: backslash")
+                if " " in part:
+                    d.add("names: space")
+                if part.startswith("."):
+                    d.add("names: leading dot")
+                if any(ord(c) > 127 for c in part):
+                    d.add("names: non-ASCII")
+                    if unicodedata.normalize("NFC", part) != part:
+                        d.add("names: not NFC (next to its composed twin)")
+                if part.endswith(".dir"):
+                    d.add("names: a listed name ending in .dir")
+                if len(part) == 1:
+                    d.add("names: 1 character")
+                if len(part) >= 200:
+                    d.add("names: 200 characters")
+        parts = {p_ for rp in rps for p_ in rp.split("/")}
+        if any(a != b and b.startswith(a) for a in parts for b in parts):
+            d.add("names: sibling names where one is a prefix of the other")
+        if any(a != b and a.lower() == b.lower() for a in parts for b in parts):
+            d.add("names: names differing only in case")
+    if impl.md5hex(b"") in before:
+        d.add("shapes: zero-length file object in the store")
+    if case.get("modes") == "unprotected":
+        d.add("pre-existing state: objects unprotected (0644)")
+    else:
+        d.add("pre-existing state: objects protected (0444)")
+    if case.get("unpacked"):
+        d.add("pre-existing state: legacy .dir.unpacked side directory")
+    if case.get("stray"):
+        d.add("pre-existing state: stray temp object and a file at the store root")
+    if case.get("store_state"):
+        d.add("pre-existing state: a directory object of the store is corrupt")
+    d.add("construction route: " + case.get("route", "planted files"))
+    if case.get("fault"):
+        d.add(f"faults: fs.remove call {case['fault']['remove_call']} raises EIO" + (" (dry)" if dry else ""))
+    if case.get("bulk"):
+        d.add("size: " + ("store beyond the listing page size (>= 1000 unused)" if case["bulk"]["n"] >= 1000 else "medium store"))
+    d.add("used container: " + case.get("used_kind", "list"))
+    d.add("store class: " + case.get("cls", "local"))
+    d.add("store algorithm: " + alg)
+    d.add("result: " + ("ok" if res[0] == "ok" else f"{res[0]} {res[1]}"))
+    return d
 
 
 VERIF = os.path.dirname(os.path.dirname(os.path.dirname(os.path.abspath(__file__))))
@@ -356,6 +651,198 @@ def sprinkle_unpacked(rng, c, dirnames):
         pick = [dn for dn in pool if rng.random() < 0.7]
         if pick:
             c["unpacked"] = pick
+
+
+WEIRD_NAMES = ["we\\ird.txt", "with space.txt", ".hidden", "кириллица.txt", "漢字.txt", "emoji-\U0001F600.bin",
+               "café.txt", "café.txt", "looks.dir", "looks.dir/inner", "imgs/a", "imgs_raw/a", "imgs.bak",
+               "x", "L" * 200, "Case.txt", "case.txt", "CASE/inner", "a/b/c/d/deep.txt", "only/sub/dirs/f"]
+
+
+def audit_cases(fo):
+    """tools/COVERAGE_AUDIT.md for gc(odb, used, jobs, cache_odb, shallow, dry): one fixed case per
+    dimension / interesting pair, run in EVERY run of both tiers and judged by the same oracle and
+    the same correspondence as everything else."""
+    A = []
+
+    def add(label, **c):
+        c.setdefault("files", [0, 1, 2])
+        c.setdefault("dirs", ["D1", "D2", "D3"])
+        c.setdefault("used", [["md5", "D1"], ["md5", fo[2]]])
+        c.setdefault("shallow", False)
+        c.setdefault("dry", False)
+        c.setdefault("cls", "local")
+        c["audit"] = label
+        A.append(c)
+
+    # -- every flag, every pair
+    jobs = iter([None, 1, 2, 16, 0, None, 4, 1])
+    for cls in ("local", "base"):
+        for sh in (True, False):
+            for dry in (False, True):
+                j = next(jobs)
+                c = {"shallow": sh, "dry": dry, "cls": cls}
+                if j is not None:
+                    c["jobs"] = j
+                add("flags: shallow x dry x class x jobs", **c)
+    add("call: declared defaults (shallow=True, dry=False)", shallow=True, dry=False, call="defaults")
+    add("call: defaults + cache_odb + jobs", shallow=True, dry=False, call="defaults", sep_cache=True, jobs=2, cls="base")
+    add("call: positional", call="positional", jobs=3)
+    add("call: positional, dry, separate cache", call="positional", dry=True, sep_cache=True, cls="base")
+    for dry in (False, True):
+        add("read_only x dry", ro=True, dry=dry)
+        add("read_only x dry x cache_odb given", ro=True, dry=dry, sep_cache=True, cls="base", shallow=True)
+    add("read_only x cache_odb is odb", ro=True, cache_is_odb=True)
+    add("read_only x nothing to do", ro=True, files=[], dirs=[], used=[])
+    # -- cache_odb given / absent / the same object / read-only consumer
+    for sh in (True, False):
+        add("cache_odb is the odb object itself", cache_is_odb=True, shallow=sh)
+    add("cache_odb is the odb object itself, dry, base", cache_is_odb=True, dry=True, cls="base")
+    add("cache_odb read-only, store writable", sep_cache=True, cache_ro=True)
+    add("cache_odb read-only + other algorithm + other class", sep_cache=True, cache_ro=True, cache_alg="md5-dos2unix",
+        cache_cls="base")
+    # -- used: the same value under two algorithm names, both orders; duplicates; obj_name labels
+    for other in ("sha256", "md5-dos2unix"):
+        for first_other in (True, False):
+            pair = [[other, fo[0]], ["md5", fo[0]]]
+            dpair = [[other, "D2"], ["md5", "D2"]]
+            if not first_other:
+                pair.reverse()
+                dpair.reverse()
+            add("used: same value under two algorithm names", used=pair + dpair, used_kind="list")
+    add("used: same value under two names, store is md5-dos2unix", alg="md5-dos2unix",
+        used=[["md5", fo[1]], ["md5-dos2unix", fo[1]], ["md5", "D1"], ["md5-dos2unix", "D1"]], used_kind="tuple")
+    add("used: value only under the other name (protects nothing)", used=[["sha256", "D1"], ["md5-dos2unix", fo[0]]])
+    for kind in ("list", "tuple", "generator"):
+        add("used: duplicates", used=[["md5", "D1"], ["md5", "D1"], ["md5", fo[2]], ["md5", fo[2]], ["md5", "D1"]],
+            used_kind=kind)
+    add("used: obj_name labels on file and directory ids",
+        used=[["md5", "D1", "data/dir"], ["md5", fo[2], "data/empty.bin"]])
+    add("used: one id under two obj_name labels, in a set",
+        used=[["md5", "D3", "first"], ["md5", "D3", "second"], ["md5", fo[1], "x"], ["md5", fo[1], None]],
+        used_kind="set")
+    add("used: obj_name label on an id of another algorithm", used=[["sha256", "D1", "label"], ["md5", "D3", "label"]],
+        used_kind="frozenset", dry=True)
+    # -- the EMPTY listing
+    E = {"DE": {"entries": []}}
+    add("EMPTY listing: used, expanded", xdirs=E, dirs=["D1", "DE"], used=[["md5", "DE"]])
+    add("EMPTY listing: used, shallow, dry", xdirs=E, dirs=["DE"], used=[["md5", "DE"]], shallow=True, dry=True, cls="base")
+    add("EMPTY listing: in the store, unused", xdirs=E, dirs=["D3", "DE"], used=[["md5", "D3"]])
+    add("EMPTY listing: used but absent (expanding: load fails)", xdirs=E, dirs=["D1"], used=[["md5", "DE"]])
+    add("EMPTY listing: used, only in the separate cache", xdirs=E, dirs=["D1"], used=[["md5", "DE"]], sep_cache=True)
+    add("EMPTY listing: its literal oid under another algorithm", xdirs=E, dirs=["DE"],
+        used=[["sha256", EMPTY_LISTING_OID]])
+    # -- sharing / the two kinds of garbage
+    for dry in (False, True):
+        add("unused directory all of whose files belong to a used directory", dirs=["D1", "D3"], used=[["md5", "D1"]],
+            dry=dry)
+    add("garbage: only directory objects", files=[0, 1], dirs=["D1", "D3"], used=[["md5", fo[0]], ["md5", fo[1]]],
+        shallow=True)
+    add("garbage: only directory objects, dry, base", files=[0, 1], dirs=["D1", "D3"],
+        used=[["md5", fo[0]], ["md5", fo[1]]], shallow=True, dry=True, cls="base")
+    add("garbage: only directory objects, no file in the store", files=[], dirs=["D1", "D2"], used=[])
+    add("garbage: only files", dirs=["D1"], used=[["md5", "D1"]], shallow=True)
+    add("garbage: only files, no directory object in the store", dirs=[], used=[["md5", fo[1]]], cls="base")
+    add("garbage: none", files=[0, 1], dirs=["D1", "D3"], used=[["md5", "D1"], ["md5", "D3"]])
+    add("garbage: none, shallow ids of everything", files=[0, 1], dirs=["D1"],
+        used=[["md5", "D1"], ["md5", fo[0]], ["md5", fo[1]]], shallow=True, dry=True)
+    add("garbage: everything", used=[])
+    add("garbage: everything, dry", used=[], dry=True, cls="base")
+    add("empty store", files=[], dirs=[], used=[["md5", fo[0]]], shallow=True)
+    add("empty store, expanding an absent directory", files=[], dirs=[], used=[["md5", "D1"]])
+    # -- a used .dir missing / corrupt in odb but present in cache_odb, and the other way round
+    add("used .dir missing in odb, present in cache_odb", files=[0, 1], dirs=[], used=[["md5", "D1"]], sep_cache=True)
+    add("used .dir corrupt in odb, present in cache_odb", files=[0, 1], dirs=["D1"], used=[["md5", "D1"]],
+        sep_cache=True, store_state={"D1": "corrupt"})
+    add("used .dir corrupt in odb, no cache_odb", files=[0, 1], dirs=["D1"], used=[["md5", "D1"]],
+        store_state={"D1": "corrupt"})
+    add("used .dir corrupt in odb, shallow (never read)", files=[0, 1], dirs=["D1"], used=[["md5", "D1"]],
+        store_state={"D1": "corrupt"}, shallow=True)
+    add("unused corrupt .dir is garbage", files=[0, 1], dirs=["D1", "D3"], used=[["md5", "D3"]],
+        store_state={"D1": "corrupt"})
+    add("used .dir present in odb, missing in cache_odb", dirs=["D1"], used=[["md5", "D1"]], sep_cache=True,
+        cache_state={"D1": "missing"})
+    add("used .dir present in odb, corrupt in cache_odb", dirs=["D1"], used=[["md5", "D1"]], sep_cache=True,
+        cache_state={"D1": "corrupt"}, cls="base")
+    add("used .dir unknown everywhere, expanding", used=[["md5", "0" * 32 + ".dir"]])
+    add("used .dir unknown everywhere, shallow", used=[["md5", "0" * 32 + ".dir"]], shallow=True)
+    # -- names inside listings
+    N = {"DN": {"entries": [[rp, [0, 1, 2, "w1", "w2"][i % 5]] for i, rp in enumerate(WEIRD_NAMES)]}}
+    W = {"w1": {"data": "weird one"}, "w2": {"data": "weird two"}, "w3": {"data": "not listed"}}
+    for cls in ("local", "base"):
+        add("names: unusual names in a used listing", xdirs=N, xfiles=W, files=[0, 1, 2, "w1", "w2", "w3"],
+            dirs=["DN", "D3"], used=[["md5", "DN"]], cls=cls)
+    add("names: unusual names in an unused listing", xdirs=N, xfiles=W, files=[0, 1, 2, "w1", "w2", "w3"],
+        dirs=["DN", "D3"], used=[["md5", "D3"], ["md5", "w3"]])
+    add("names: unusual names, listing only in the cache, dry", xdirs=N, xfiles=W, files=[0, "w1", "w3"], dirs=[],
+        used=[["md5", "DN"]], sep_cache=True, dry=True)
+    # -- shapes
+    S = {"DS": {"entries": [["a/b/c/d/deep", 0], ["dup1", 1], ["dup2", 1], ["zero", 2]]}, "DK": {"entries": [["", 0]]}}
+    add("shapes: depth, identical content twice, zero-length file", xdirs=S, dirs=["DS", "D2"], used=[["md5", "DS"]])
+    add("shapes: the same, unused", xdirs=S, dirs=["DS", "D2"], used=[["md5", "D2"]], cls="base")
+    add("shapes: entry at the root key", xdirs=S, dirs=["DK", "D1"], used=[["md5", "DK"]])
+    # -- identifiers: endings, '.dir' arithmetic
+    H = {f"h{c}": {"data": f"hex {c}", "oid": "ab" + "0" * 29 + c} for c in "0123456789abcdef"}
+    H["twin"] = {"data": "file named like DD without .dir", "oid": "raw:DD"}
+    H["strip"] = {"data": "what rstrip('.dir') would make of DD", "oid": "cd" + "0" * 28}
+    X = {"DD": {"entries": [["k", "h3"], ["d", "hd"]], "oid": "cd" + "0" * 28 + "dd.dir"}}
+    allh = sorted(H)
+    add("identifiers: every hex ending; dir oid ...dd.dir used, its raw twin not", xfiles=H, xdirs=X, files=allh,
+        dirs=["DD", "D3"], used=[["md5", "DD"], ["md5", "h0"], ["md5", "hf"], ["md5", "hd"]])
+    add("identifiers: the raw twin used, the directory not", xfiles=H, xdirs=X, files=allh, dirs=["DD"],
+        used=[["md5", "twin"], ["md5", "strip"], ["md5", "h7"]], cls="base")
+    add("identifiers: both twins used, shallow dry", xfiles=H, xdirs=X, files=allh, dirs=["DD"],
+        used=[["md5", "twin"], ["md5", "DD"]], shallow=True, dry=True)
+    T = {"twin1": {"data": "raw twin of D1", "oid": "raw:D1"}}
+    add("identifiers: file object named like D1 without .dir, D1 used", xfiles=T, files=[0, 1, "twin1"], dirs=["D1"],
+        used=[["md5", "D1"]])
+    add("identifiers: file object named like D1 without .dir, the file used", xfiles=T, files=[0, 1, "twin1"],
+        dirs=["D1"], used=[["md5", "twin1"]])
+    # -- pre-existing state, construction route
+    add("pre-existing state: unprotected objects", modes="unprotected")
+    add("pre-existing state: unprotected objects, dry, base", modes="unprotected", dry=True, cls="base")
+    for cls in ("local", "base"):
+        add("route: store built through add_bytes / add_update_tree", route="api", dirs=["D1", "D3"], cls=cls)
+    add("route: API-built store, shallow dry, separate cache", route="api", dirs=["D1", "D3"], shallow=True, dry=True,
+        sep_cache=True)
+    add("route: API-built store with unusual names", route="api", xdirs=N, xfiles=W, files=[0, 1, 2, "w1", "w2", "w3"],
+        dirs=["DN"], used=[["md5", "DN"]])
+    # -- faults: fs.remove fails on the first (directory objects) / the last (files) call
+    for k in (1, 2):
+        for cls in ("local", "base"):
+            add("faults: fs.remove raises", dirs=["D1", "D2", "D3"], used=[["md5", "D3"]], fault={"remove_call": k},
+                cls=cls)
+    add("faults: dry run never reaches fs.remove", used=[["md5", "D3"]], fault={"remove_call": 1}, dry=True)
+    add("faults: only files to remove, first call fails", dirs=["D3"], used=[["md5", "D3"]], shallow=True,
+        fault={"remove_call": 1})
+    return A
+
+
+def probe_duplicate_relpath(ctx):
+    """OBSERVATION, not judged: a hand-made listing that names the same relpath twice with two
+    different files cannot be produced by dvc-data (a Tree is keyed by relpath), but it can be
+    stored.  Tree.load keeps the last entry only, so gc(expanding) protects only that file.
+    Recorded in the evidence so that the behaviour is visible; it raises no violation because such
+    an object is not a directory object in the sense of the property (reported to the lead)."""
+    from dvc_data.hashfile.gc import gc
+    from dvc_data.hashfile.hash_info import HashInfo
+
+    root = ctx.fresh("gc-probe")
+    store = os.path.join(root, "store")
+    fa, fb = impl.md5hex(b"A"), impl.md5hex(b"B")
+    impl.plant(store, fa, b"A")
+    impl.plant(store, fb, b"B")
+    body = json.dumps([{"md5": fa, "relpath": "same"}, {"md5": fb, "relpath": "same"}]).encode()
+    oid = impl.md5hex(body) + ".dir"
+    impl.plant(store, oid, body)
+    try:
+        n = gc(impl.make_odb("local", store), [HashInfo("md5", oid)], shallow=False, dry=False)
+    except Exception as exc:  # noqa: BLE001
+        n = type(exc).__name__
+    after = sorted(impl.walk_store(store))
+    impl.rm_rf(root)
+    return {"listing": "[{md5: A, relpath: same}, {md5: B, relpath: same}] used, expanding, real run",
+            "returned": n, "first_entry_file_kept": fa in after, "last_entry_file_kept": fb in after,
+            "judged": False}
 
 
 def gen_bulk(ctx, cases):
@@ -430,9 +917,35 @@ def run(ctx):
         {"files": [0], "dirs": ["D3"], "used": [], "shallow": True, "dry": False, "cls": "local"},
     ]
     ctx.count("corpus", len(corpus))
+    audit = audit_cases(fo)
+    ctx.count("audit-cases", len(audit))
+    # a few more draws on the sampled stream for the audit's flag-like dimensions
+    for c in sample:
+        if ctx.rng.random() < 0.15:
+            c["jobs"] = ctx.rng.choice([1, 2, 4, 16])
+        if ctx.rng.random() < 0.1:
+            c["modes"] = "unprotected"
+        if not (c.get("sep_cache") or c.get("cache_at_store")) and ctx.rng.random() < 0.12:
+            c["cache_is_odb"] = True
+        if c.get("sep_cache") and ctx.rng.random() < 0.2:
+            c["cache_ro"] = True
+        if c["used"] and ctx.rng.random() < 0.15:  # obj_name labels / duplicates
+            u = list(c["used"])
+            i = ctx.rng.randrange(len(u))
+            u[i] = (u[i][0], u[i][1], "data/label-%d" % i)
+            if ctx.rng.random() < 0.5:
+                u.append(c["used"][i])
+            c["used"] = u
+        if c["shallow"] and not c["dry"] and ctx.rng.random() < 0.2:
+            c["call"] = "defaults"
+        elif ctx.rng.random() < 0.1:
+            c["call"] = "positional"
+    dim_count = {}
     items, big_items = [], []
-    for c in corpus + sample + bulk_cases:
+    for c in corpus + audit + sample + bulk_cases:
         inp, exp, problems, nontrivial, res = run_case(ctx, c, fo, dirs, F)
+        for dname in run_case.last_dims:
+            dim_count[dname] = dim_count.get(dname, 0) + 1
         ctx.case(c, nontrivial)
         ctx.count("result:" + ("ok" if res[0] == "ok" else f"err{res[1]}"))
         ctx.count("mode:" + ("shallow" if c["shallow"] else "expand") + ("/dry" if c["dry"] else "/real"))
@@ -452,12 +965,16 @@ def run(ctx):
             ctx.count("store:small")
         for sig, what in problems:
             ctx.oracle_fail(sig, what, c)
+        if c.get("fault") and res[0] == "fault":
+            continue  # judged by the oracle only: the model has no I/O faults
         (big_items if b and b["n"] >= 400 else items).append((c, inp, exp))
     ctx.obligation("oracle:gc", not any(v.kind == "oracle" for v in ctx.violations),
                    f"{len(items) + len(big_items)} real gc runs judged by the independent set-difference oracle")
     # the large stores have big literals: one per shard, at its head (parallel coqc)
     allitems, shard = interleave(items, big_items)
     ctx.correspond("gc", IMPORTS, "gc_in", "fun i => enc_gc_out (gc i)", allitems, shard=shard)
+    ctx.extra["input_dimensions"] = dict(sorted(dim_count.items()))
+    ctx.extra["probes"] = {"duplicate relpath in a hand-made listing": probe_duplicate_relpath(ctx)}
     ctx.extra["exhaustive"] = False if ctx.tier == "quick" else (len(sample) == len(full))
 
 
